@@ -85,6 +85,11 @@ theorem tryCallCol_notify (fx : Fixes) (c : Cfg) (svc ty g m : String) (pay : Pa
 
 /-! ## one message -/
 
+@[simp] theorem wireLocal_error : wireLocal .error = .error := rfl
+@[simp] theorem wireBack_error : wireBack .error = .error := rfl
+@[simp] theorem wireLocal_data (o g m : String) (v : Nat) : wireLocal (.data o g m v) = .data o g m v := rfl
+@[simp] theorem wireBack_data (o g m : String) (v : Nat) : wireBack (.data o g m v) = .data o g m v := rfl
+
 theorem behResult_fst_le (svc g m : String) (v : Nat) (b : Beh) : (behResult svc g m v b).1 ≤ lateMs := by
   cases b <;> simp [behResult, lateMs, slowMs]
 
@@ -95,7 +100,9 @@ theorem process_served (c : Cfg) (s : Sess) (msg : ClientMsg) (hid : msg.id ≠ 
     process c s msg =
       if (splitClientRoute msg.route).1 ≠ c.frontType ∧ requestTimeout < (behResult svc g m v b).1 then
         [.invoke svc g m v, .respond timeoutMs s.sid msg.id .error]
-      else [.invoke svc g m v, .respond (behResult svc g m v b).1 s.sid msg.id (behResult svc g m v b).2] := by
+      else [.invoke svc g m v, .respond (behResult svc g m v b).1 s.sid msg.id
+              (if (splitClientRoute msg.route).1 = c.frontType then wireLocal (behResult svc g m v b).2
+               else wireBack (behResult svc g m v b).2)] := by
   unfold served target at h
   unfold process processWith forward processForward serveLocal
   simp only at h ⊢
